@@ -15,9 +15,10 @@ Mirrored as written:
     `PInfo`, else an attribute that is a function → `MInfo`, else `AttributeError`
   * `_params_depended_on(minfo, dynamic=False)`: recursion through method-name dependencies,
     an undecorated function "depends on" `list(cls.param)`
-  * `ParameterizedMetaclass.__init__`: own decorated functions → `_watch`; entries of every
-    ancestor's table (nearest first) copied VERBATIM when the function as resolved on the new
-    class has `watch` truthy and no entry of that name exists yet; table = `_inherited + _watch`.
+  * `ParameterizedMetaclass.__init__`: own decorated functions → `_watch`; for every entry of every
+    ancestor's table (nearest first) whose function as resolved on the new class has `watch` truthy
+    and no entry of that name exists yet, a NEW entry resolved on the new class (dependencies,
+    `queued`, `on_init` of the resolved function); table = `_inherited + _watch`.
 
 Assumption (harness generates accordingly): Parameter names and function names are disjoint.
 No Mathlib, no imports: loaded by the driver.
@@ -69,7 +70,8 @@ structure PDep where
   deriving Repr, DecidableEq
 
 /-- one element of `_depends['watch']`: `(name, queued, on_init, deps, dynamic_deps)`; `origin` is
-the class whose metaclass run created the tuple (ghost: it is the `cls` of every `PInfo` in it) -/
+the class whose metaclass run created the tuple (ghost: it is the `cls` of every `PInfo` in it; since
+inherited entries are resolved again it is always the class the table belongs to) -/
 structure Entry where
   name : Name
   queued : Bool
@@ -177,13 +179,33 @@ def ownEntries (h : Hierarchy) (c : Cls) (fuel : Nat) : List Method → Except E
 def hasName (l : List Entry) (n : Name) : Bool := l.any (fun e => e.name = n)
 
 /-- one `dep` of an ancestor's table:
-`if not any(dep[0] == w[0] for w in _watch+_inherited) and dinfo.get('watch'): _inherited.append(dep)` -/
-def inheritStep (h : Hierarchy) (c : Cls) (own : List Entry) (acc : List Entry) (dep : Entry) : List Entry :=
-  if !hasName (own ++ acc) dep.name && resolvedWatches h c dep.name then acc ++ [dep] else acc
+`if not any(dep[0] == w[0] for w in _watch+_inherited) and dinfo.get('watch'):` resolve the method
+again on the new class and append `(dep[0], dinfo['watch'] == 'queued', dinfo.get('on_init'), deps, …)` -/
+def inheritStep (h : Hierarchy) (c : Cls) (fuel : Nat) (own : List Entry) (acc : List Entry) (dep : Entry) :
+    Except Err (List Entry) :=
+  if !hasName (own ++ acc) dep.name && resolvedWatches h c dep.name then
+    match resolveMethod h c dep.name with
+    | some (_, m) =>
+      match m.dinfo with
+      | some d =>
+        match depsOn h c fuel (some d) with
+        | .error e => .error e
+        | .ok deps => .ok (acc ++ [⟨dep.name, d.queued, d.onInit, deps, c⟩])
+      | none => .ok acc
+    | none => .ok acc
+  else .ok acc
+
+def inheritFold (h : Hierarchy) (c : Cls) (fuel : Nat) (own : List Entry) : List Entry → List Entry → Except Err (List Entry)
+  | acc, [] => .ok acc
+  | acc, dep :: rest =>
+    match inheritStep h c fuel own acc dep with
+    | .error e => .error e
+    | .ok acc' => inheritFold h c fuel own acc' rest
 
 /-- `for cls in classlist(mcs)[:-1][::-1]: for dep in cls.param._depends['watch']: …` -/
-def inheritAll (h : Hierarchy) (c : Cls) (own : List Entry) (ancTables : List (List Entry)) : List Entry :=
-  ancTables.foldl (fun acc t => t.foldl (inheritStep h c own) acc) []
+def inheritAll (h : Hierarchy) (c : Cls) (fuel : Nat) (own : List Entry) (ancTables : List (List Entry)) :
+    Except Err (List Entry) :=
+  inheritFold h c fuel own [] ancTables.flatten
 
 /-- the tables of the ancestors, nearest first; every ancestor must have been created before -/
 def ancestorTables (tables : List (List Entry)) : List Cls → Except Err (List (List Entry))
@@ -204,7 +226,10 @@ def tableOf (h : Hierarchy) (fuel : Nat) (tables : List (List Entry)) (c : Cls) 
   | .ok own =>
     match ancestorTables tables d.mro.tail with
     | .error e => .error e
-    | .ok anc => .ok (inheritAll h c own anc ++ own)
+    | .ok anc =>
+      match inheritAll h c fuel own anc with
+      | .error e => .error e
+      | .ok inh => .ok (inh ++ own)
 
 /-- the tables of classes `0 … n-1`, in creation order -/
 def tablesUpTo (h : Hierarchy) (fuel : Nat) : Nat → Except Err (List (List Entry))
